@@ -2,7 +2,7 @@
 """Copy confirmed seeded changes (tests pass with the change, demo fails with / passes without) into /verif/seeded/<id>/<m>/."""
 import glob, json, os, shutil
 rows = []
-for f in sorted(glob.glob("/tmp/seedeval/C*_m*.json")):
+for f in sorted(glob.glob("/tmp/seedeval/C*_*m[0-9].json")):
     try:
         ev = json.load(open(f))
     except Exception:
